@@ -569,6 +569,7 @@ func cmdCheck(args []string) int {
 
 	if *updateLock {
 		nl := LockFile{Undecided: map[string]string{}}
+		var refused []string
 		for _, j := range jobs {
 			o := j.o
 			if o.Result == "unsat" {
@@ -587,10 +588,20 @@ func cmdCheck(args []string) int {
 			} else if _, ok := openKnown[o.Name]; !ok {
 				reason := lock.Undecided[o.Name]
 				if reason == "" {
-					reason = "TODO: " + o.Result
+					// an obligation that does not discharge is never moved to "undecided" silently: that would
+					// hide every later violation of it. Give the reason in the lock file by hand first.
+					refused = append(refused, o.Name+" ("+o.Result+")")
+					continue
 				}
 				nl.Undecided[o.Name] = reason
 			}
+		}
+		if len(refused) > 0 {
+			for _, r := range refused {
+				fmt.Fprintln(os.Stderr, "not discharged and not listed as undecided:", r)
+			}
+			fmt.Fprintln(os.Stderr, "lock file NOT written")
+			return 2
 		}
 		for _, cp := range covers {
 			if cp.res == "sat" {
